@@ -388,6 +388,7 @@ func TestC18_DFS(t *testing.T) {
 type c18WaitCase struct {
 	Pre    []hOp  `json:"pre"`
 	Then   []hOp  `json:"then"`   // applied while waiting
+	After  []hOp  `json:"after"`  // applied after the first wait completed, followed by a second wait
 	Cancel bool   `json:"cancel"` // cancel instead of (or before) becoming ready
 	Mode   string `json:"mode"`
 }
@@ -455,7 +456,48 @@ func execC18Wait(c c18WaitCase) Outcome {
 			return fail("WaitForReady completed (closed=%v value=%v) while not ready at the end; ops %v", cl, v, append(c.Pre, c.Then...))
 		}
 	}
-	return Outcome{NT: closed && len(c.Then) > 0, Labels: []string{fmt.Sprintf("closed:%v", closed)}}
+	labels := []string{fmt.Sprintf("closed:%v", closed)}
+	if closed && len(c.After) > 0 {
+		// a second wait on the same Health, after further registrations / marks
+		for _, o := range c.After {
+			applyHOp(h, o)
+		}
+		st2 := modelStates(append(append(append([]hOp{}, c.Pre...), c.Then...), c.After...))
+		ready2 := stateReady(st2[len(st2)-1])
+		ctx2, cancel2 := context.WithCancel(context.Background())
+		defer cancel2()
+		ch2 := h.WaitForReady(ctx2)
+		var done2, got2 bool
+		var v2 error
+		wait := 25 * time.Millisecond
+		if ready2 {
+			wait = 5 * time.Second
+		}
+		select {
+		case err, ok := <-ch2:
+			done2, got2, v2 = !ok, ok, err
+		case <-time.After(wait):
+		}
+		if ready2 && !done2 {
+			return fail("second wait: all registered components ready but it did not complete (value %v)", v2)
+		}
+		if !ready2 {
+			if done2 || got2 {
+				return fail("second wait on the same Health completed (closed=%v value=%v) although a component registered after the first wait is not ready; ops %v then %v", done2, v2, append(c.Pre, c.Then...), c.After)
+			}
+			cancel2()
+			select {
+			case err, ok := <-ch2:
+				if !ok || err == nil {
+					return fail("second wait: cancelled while not ready but the channel was closed / yielded nil")
+				}
+			case <-time.After(5 * time.Second):
+				return fail("second wait: cancelled while not ready but nothing was yielded within 5s")
+			}
+		}
+		labels = append(labels, "second_wait")
+	}
+	return Outcome{NT: closed && len(c.Then) > 0, Labels: labels}
 }
 
 func TestC18_Wait(t *testing.T) {
@@ -469,8 +511,8 @@ func TestC18_Wait(t *testing.T) {
 			return ops
 		}
 		if rapid.Bool().Draw(rt, "twonames") {
-			return c18WaitCase{Pre: two(4), Then: two(5), Cancel: rapid.Bool().Draw(rt, "cancel")}
+			return c18WaitCase{Pre: two(4), Then: two(5), After: two(3), Cancel: rapid.Bool().Draw(rt, "cancel")}
 		}
-		return c18WaitCase{Pre: genHOps(rt, 4), Then: genHOps(rt, 3), Cancel: rapid.Bool().Draw(rt, "cancel")}
+		return c18WaitCase{Pre: genHOps(rt, 4), Then: genHOps(rt, 3), After: genHOps(rt, 3), Cancel: rapid.Bool().Draw(rt, "cancel")}
 	}, execC18Wait)
 }
